@@ -22,36 +22,9 @@ OPTION_READERS = {
 
 
 def nullable_keys(m):
-    """Keys assigned None under an option test, derived from the two functions that annotate targets."""
-    keys = {}
-    et = m.func(TAB, 'Rule._extend_targets')
-    # names bound to None in the `else` of `if is_rank_optim:`
-    none_names = set()
-    for n in ast.walk(et):
-        if isinstance(n, ast.If) and astq.u(n.test) == 'is_rank_optim':
-            for st in n.orelse:
-                if isinstance(st, ast.Assign):
-                    v = st.value
-                    isnone = (isinstance(v, ast.Constant) and v.value is None) or \
-                        (isinstance(v, ast.Tuple) and all(isinstance(e, ast.Constant) and e.value is None for e in v.elts))
-                    if isnone:
-                        none_names |= {t.id for t in st.targets if isinstance(t, ast.Name)}
-    for c in astq.calls(et):
-        if astq.call_name(c) == 'target.update':
-            for k in c.keywords:
-                src = astq.names_in(k.value)
-                if src & none_names or (isinstance(k.value, ast.Name) and k.value.id == 'score' and 'scores' in none_names):
-                    keys[k.arg] = 'is_rank_optim'
-    ga = m.func(TAB, 'Tableau._get_group_application')
-    pm = astq.parent_map(ga)
-    for c in astq.calls(ga):
-        if astq.call_name(c) == 'target.update':
-            g = astq.guards_of(ga, astq.stmt_of(pm, c), pm)
-            if ('not is_group_optim', True) in g:
-                for k in c.keywords:
-                    if isinstance(k.value, ast.Constant) and k.value.value is None:
-                        keys[k.arg] = 'is_group_optim'
-    return keys
+    """Keys that are None under an option, derived by folding the two functions that annotate targets with the option off."""
+    from .. import search
+    return search.nullable_target_keys(m)
 
 
 def key_of_access(n):
@@ -182,12 +155,7 @@ def run(ctx, rep):
     rep.instance(R3, ok=ok, nontrivial='stepiter-fold')
     if not ok:
         rep.finding(R3, 'C09.R3/stepiter/fold', m.loc(TAB, si), 'Tableau.stepiter', f'does not yield step() results until the first empty one: {out}')
-    txt = astq.u(si)
-    ok = 'while True' in txt and 'step = self.step()' in txt and 'if not step' in txt and 'yield step' in txt
-    rep.instance(R3, ok=ok, nontrivial='stepiter')
     rep.consult(m.loc(TAB, b) + ' Tableau.build', m.loc(TAB, si) + ' Tableau.stepiter')
-    if not ok:
-        rep.finding(R3, 'C09.R3/stepiter', m.loc(TAB, si), 'Tableau.stepiter', 'is no longer "call step() until it returns nothing"')
 
 
 def fairness_rule(ctx, rep):
